@@ -340,26 +340,35 @@ def rule_literals(ctx):
     ctx.check(R, "Expression::propagate_values/Number/reduced", ok, det, site(EI, a))
 
 
+from sgrep import visits_all_statements  # noqa: E402
+
+
 def rule_consumers(ctx):
     R = "C06.6"
     ctx.rule(R, "the constant-condition finding is issued exactly for conditions whose value is a known boolean, with that boolean")
-    fn = find_fn(CC, "visit_statement")
-    if fn is None:
-        return ctx.missing(R, "constant_conditional::visit_statement")
-    pushes = list(method_calls(fn["body"], "push"))
+    import sgrep
+
+    # the function that issues the finding (the per-statement visitor, or the pass itself when the visitor is inlined)
+    cands = [f_ for _q, f_ in fns_in_file(CC) if any(sgrep.match(sgrep.pattern("build_report(__m, __v)"), p_["args"][0], {}) for p_ in method_calls(f_["body"], "push") if p_["args"])]
+    if len(cands) != 1:
+        return ctx.missing(R, "constant_conditional::visit_statement", "expected one function pushing build_report(..), found %d" % len(cands))
+    fn = cands[0]
+    pushes = [p_ for p_ in method_calls(fn["body"], "push") if p_["args"] and sgrep.match(sgrep.pattern("build_report(__m, __v)"), p_["args"][0], {})]
     if len(pushes) != 1:
         return ctx.missing(R, "visit_statement/push")
-    conds = conditions_to(fn["body"], pushes[0]) or []
+    allconds = conditions_to(fn["body"], pushes[0]) or []
+    conds = [c for c in allconds if c[0] not in ("loop", "closure")]
     cs = [c.replace(" ", "") for c in facts_str(conds)]
-    import sgrep
 
     le = let_env(fn["body"], pushes[0])
     pv = sgrep.params(fn)
+    # the statement inspected: the visitor's parameter, or the loop variable of the pass
+    stmt_names = set(pv[:1]) | {render(c[2]).replace("&", "").strip() for c in allconds if c[0] == "loop" and c[1] == "for" and c[2] is not None}
     ifl = [c for c in conds if c[0] == "iflet" and c[3]]
     ok = len(conds) == 2 and len(ifl) == 2
     if ok:
         p1, p2 = ifl[0][1], ifl[1][1]
-        ok = p1["k"] == "PStruct" and last(p1["path"]) == "IfThenElse" and any(f_["name"] == "cond" and render(f_["pat"]).replace("&", "").strip() == "cond" for f_ in p1["fields"]) and bool(pv) and render(strip(ifl[0][2])) == pv[0]
+        ok = p1["k"] == "PStruct" and last(p1["path"]) == "IfThenElse" and any(f_["name"] == "cond" and render(f_["pat"]).replace("&", "").strip() == "cond" for f_ in p1["fields"]) and render(strip(ifl[0][2])) in stmt_names
         ok = ok and render(p2).replace(" ", "") == "Some(Boolean{value})" and sgrep.match(sgrep.pattern("cond.meta().value_knowledge().get_reduces_to()"), ifl[1][2], {}, le)
     ctx.check(R, "constant_conditional/reports-known-booleans-only", bool(ok), "report under %s" % cs, site(CC, pushes[0]))
     ctx.check(R, "constant_conditional/reports-that-value", sgrep.match(sgrep.pattern("build_report(cond.meta(), value)"), pushes[0]["args"][0], {}, {k_: v_ for k_, v_ in le.items() if k_ != "value"}), render(pushes[0])[:100], site(CC, pushes[0]))
@@ -371,8 +380,8 @@ def rule_consumers(ctx):
             ctx.check(R, "ConstantBranchConditionWarning/message-states-the-value", ok, t[:200], site(CC, f))
     top = find_fn(CC, "find_constant_conditional_statement")
     if top is not None:
-        loops = [n for n in walk(top["body"]) if n["k"] == "For"]
-        ctx.check(R, "constant_conditional/visits-all-statements", len(loops) == 2 and not [r for r in walk(top["body"]) if r["k"] in ("Return", "Continue", "Break")], "two unconditional loops expected", site(CC, top))
+        okv, how = visits_all_statements(top, "visit_statement" if fn is not top else None)
+        ctx.check(R, "constant_conditional/visits-all-statements", okv, how, site(CC, top))
 
 
 def run(ctx):
